@@ -129,6 +129,42 @@ theorem splitlinesAux_keep_flatten : ∀ (s cur : Str), (splitlinesAux true s cu
       · simp [splitlinesAux_keep_flatten (d :: rest) []]
       · simp [splitlinesAux_keep_flatten (d :: rest) (c :: cur)]
 
+theorem splitlinesAux_clean : ∀ (s cur : Str), (∀ c ∈ cur, c ≠ '\n' ∧ c ≠ '\r') →
+    ∀ l ∈ splitlinesAux false s cur, ∀ c ∈ l, c ≠ '\n' ∧ c ≠ '\r'
+  | [], cur, hcur, l, hl, c, hc => by
+    simp only [splitlinesAux] at hl
+    split at hl
+    · simp at hl
+    · simp only [List.mem_singleton] at hl; subst hl; exact hcur c (List.mem_reverse.1 hc)
+  | [x], cur, hcur, l, hl, c, hc => by
+    simp only [splitlinesAux] at hl
+    split at hl
+    · simp only [Bool.false_eq_true, if_false, List.mem_singleton] at hl; subst hl
+      exact hcur c (List.mem_reverse.1 hc)
+    · rename_i hx
+      simp only [List.mem_singleton] at hl; subst hl
+      rcases List.mem_cons.1 (List.mem_reverse.1 hc) with rfl | h'
+      · exact ⟨fun h => hx (.inl h), fun h => hx (.inr h)⟩
+      · exact hcur c h'
+  | x :: d :: rest, cur, hcur, l, hl, c, hc => by
+    simp only [splitlinesAux] at hl
+    split at hl
+    · simp only [Bool.false_eq_true, if_false] at hl
+      rcases List.mem_cons.1 hl with rfl | h'
+      · exact hcur c (List.mem_reverse.1 hc)
+      · exact splitlinesAux_clean rest [] (by simp) l h' c hc
+    · split at hl
+      · simp only [Bool.false_eq_true, if_false] at hl
+        rcases List.mem_cons.1 hl with rfl | h'
+        · exact hcur c (List.mem_reverse.1 hc)
+        · exact splitlinesAux_clean (d :: rest) [] (by simp) l h' c hc
+      · rename_i hx
+        refine splitlinesAux_clean (d :: rest) (x :: cur) ?_ l hl c hc
+        intro y hy
+        rcases List.mem_cons.1 hy with rfl | h'
+        · exact ⟨fun h => hx (.inl h), fun h => hx (.inr h)⟩
+        · exact hcur y h'
+
 /-! ### `_join` -/
 
 theorem joinChars_foldl (sep : Str) : ∀ (cs acc : Str), acc ≠ [] →
